@@ -14,6 +14,7 @@ import corpus
 import genjs
 import proto
 import stages
+import json
 import treedump
 from parts import lrtie
 
@@ -41,10 +42,64 @@ def texts_for(ctx):
             texts += list(genjs.token_mutations(rng, toks, 1))
     for k, v in stats.items():
         ctx.bump('gen:' + k, v)
+    # comments of every shape (the comment rules belong to the lexer tables too): trailing blanks, controls, openers inside,
+    # at end of input, every terminator
+    for body in ['', ' note', ' note  \t', ' x \x85', '\xa0', ' /* in */ ', ' \\', '*/', ' é\u2003', '\t\x0b\x0c ']:
+        for lt in ('\n', '\r', '\r\n', '\u2028', '\u2029', ''):
+            texts.append('a = 1; //%s%sb = 2;' % (body, lt) if lt else 'a = 1; //%s' % body)
+        texts.append('/*%s*/ c = 3; /*%s\n%s*/ d;' % (body.replace('*/', '* /'), body.replace('*/', '*'), body.replace('*/', '')))
     # raw malformed stream
     for _ in range(ctx.n(20, 200)):
         texts.append(''.join(rng.choice('ab1 \n/*"\'\\{}();=+.[],é\u2028') for _ in range(rng.randint(1, 12))))
     return texts
+
+
+GEN_ORDER_CHILD = r"""
+import json, sys
+sys.path.insert(0, %(harness)r)
+import boot; boot.boot()
+from calmjs.parse.parsers import es5
+first = %(first)r
+es5.Parser(with_comments=first)            # generates lextab / yacctab in this scratch copy
+import treedump, proto
+out = []
+for text in json.load(open(%(probes)r)):
+    for wc in (False, True):
+        try:
+            t = es5.Parser(with_comments=wc).parse(text)
+            out.append(['ok', proto.render(treedump.dump(t, pos=True, tokmap=True, comments=True))])
+        except Exception as e:
+            out.append(['err', type(e).__name__, str(e)])
+json.dump(out, sys.stdout)
+"""
+
+
+def generation_order_probe(texts):
+    """None, or a dict describing the first probe on which the two generation orders differ"""
+    import os
+    import subprocess
+    import sys
+    import tempfile
+    probes = [t for t in texts if '//' in t or '/*' in t][:120] + texts[:40]
+    fd, pf = tempfile.mkstemp(suffix='.json')
+    os.close(fd)
+    try:
+        json.dump(probes, open(pf, 'w'))
+        outs = {}
+        for first in (False, True):
+            code = GEN_ORDER_CHILD % dict(harness=os.path.dirname(os.path.dirname(os.path.abspath(__file__))), first=first,
+                                          probes=pf)
+            r = subprocess.run([sys.executable, '-c', code], stdout=subprocess.PIPE, stderr=subprocess.PIPE, timeout=600)
+            if r.returncode != 0:
+                return dict(error='child failed', first=first, stderr=r.stderr.decode('utf8', 'replace')[-600:])
+            outs[first] = json.loads(r.stdout.decode('utf8'))
+        for i, (a, b) in enumerate(zip(outs[False], outs[True])):
+            if a != b:
+                return dict(text=probes[i // 2], with_comments=bool(i % 2), generated_by_default_parser=a,
+                            generated_by_comment_parser=b)
+        return None
+    finally:
+        os.unlink(pf)
 
 
 def run(ctx):
@@ -87,6 +142,14 @@ def run(ctx):
                     ctx.violation('configuration %s (with_comments=%s) disagrees with the generated-module parser' % (cfg, wc),
                                   dict(text=text, config=cfg, with_comments=wc, cached=base, other=r))
                     return
+    # the generated modules must not depend on WHICH parser configuration happened to generate them: in two fresh scratch
+    # copies the modules are generated by a default parser resp. by a comment-capturing parser; both then parse the same
+    # probes with both flags through parsers that load the modules
+    order = generation_order_probe(texts)
+    ctx.case(('generation-order',), nontrivial=True)
+    if order:
+        ctx.violation('generated table modules depend on the configuration of the parser that generated them', order)
+        return
     # rarely used constructor options must not couple parser objects of the cached configurations: a parser built with
     # its own asttypes factory, then another default parser, then parse with the first
     from calmjs.parse.factory import AstTypesFactory
